@@ -335,6 +335,7 @@ struct Diag {
   bool ok = false;        // diagnosis available
   bool same = false;      // the recorded rerun returned the same eigenvalues
   bool exceeded = false;  // basis had more columns than the matrix has rows
+  bool restarted = false; // a restart discarded part of the search space
   double ortho_loss = 0;  // max |G^T G - I| over the vectors that coexist in V
   Vec ritz_seen;          // SYMM only
 };
@@ -347,7 +348,7 @@ static Diag diagnose(const Mat &A, Index k, const json &opt, bool ham, const Vec
     for (size_t i = 0; i < rec.size(); ++i)
       if (!ham || i % 2 == 0) vb.push_back(rec[i]);
     Index space = eff_space(opt.at("space"), k, n);
-    bool exceeded = false;
+    bool exceeded = false, restarted = false;
     double loss = 0;
     Index cols = 0;
     std::vector<Mat> group;
@@ -370,6 +371,7 @@ static Diag diagnose(const Mat &A, Index k, const json &opt, bool ham, const Vec
       group.push_back(vb[t]);
       if (cols > n) exceeded = true;
       if (t > 0 && cols > space) {  // restart: V = [Ritz vectors | this block]
+        restarted = true;
         check_group();
         group.clear();
         group.push_back(vb[t]);
@@ -394,20 +396,21 @@ static Diag diagnose(const Mat &A, Index k, const json &opt, bool ham, const Vec
       Eigen::SelfAdjointEigenSolver<Mat> es(Q.transpose() * A * Q);
       for (Index i = 0; i < std::min(k, r); ++i) ritz.push_back(es.eigenvalues()(i));
     }
-    d = {exceeded ? 1.0 : 0.0, loss, double(ritz.size())};
+    d = {exceeded ? 1.0 : 0.0, loss, restarted ? 1.0 : 0.0, double(ritz.size())};
     d.insert(d.end(), ritz.begin(), ritz.end());
     d.push_back(double(C.lambda.size()));
     d.insert(d.end(), C.lambda.data(), C.lambda.data() + C.lambda.size());
   });
   Diag D;
-  if (B.died || B.d.size() < 4) return D;
+  if (B.died || B.d.size() < 5) return D;
   D.ok = true;
   D.exceeded = B.d[0] != 0;
   D.ortho_loss = B.d[1];
-  Index nr = Index(B.d[2]);
-  D.ritz_seen = Eigen::Map<const Vec>(B.d.data() + 3, nr);
-  Index nl = Index(B.d[3 + nr]);
-  Vec l2 = Eigen::Map<const Vec>(B.d.data() + 4 + nr, nl);
+  D.restarted = B.d[2] != 0;
+  Index nr = Index(B.d[3]);
+  D.ritz_seen = Eigen::Map<const Vec>(B.d.data() + 4, nr);
+  Index nl = Index(B.d[4 + nr]);
+  Vec l2 = Eigen::Map<const Vec>(B.d.data() + 5 + nr, nl);
   D.same = nl == lambda_main.size() && (nl == 0 || (l2 - lambda_main).cwiseAbs().maxCoeff() <= 1e-9 * (1 + lambda_main.cwiseAbs().maxCoeff()));
   return D;
 }
@@ -450,7 +453,9 @@ static std::string attribute(const Ctx &x, const std::string &symptom, std::stri
     return K_OLSEN;
   }
   Diag D = diagnose(x.A, x.k, opt, x.ham, x.R.lambda);
-  if (D.ok && (D.exceeded || D.ortho_loss > 1e-8)) {
+  // only a GROSS loss of orthonormality (a normalised-noise vector in the basis) is attributed to the known Gram-Schmidt
+  // defect; a small loss (e.g. a skipped re-orthogonalisation pass) keeps its symptom key
+  if (D.ok && (D.exceeded || D.ortho_loss > 1e-3)) {
     why = fmt(" [diagnosis: basis %s, max |V^T V - I| among coexisting basis vectors = %.3e]",
               D.exceeded ? "grew beyond the matrix dimension" : "stayed within the matrix dimension", D.ortho_loss);
     return K_GS;
@@ -458,10 +463,23 @@ static std::string attribute(const Ctx &x, const std::string &symptom, std::stri
   if (!D.ok) why = " [diagnosis rerun died]";
   return symptom;
 }
-static void fail_attr(Result &r, const Ctx &x, const std::string &symptom, const std::string &msg) {
+static bool tolerated(const json &c, const std::string &key) {
+  if (c.contains("tolerate"))
+    for (auto &t : c["tolerate"])
+      if (t == key) return true;
+  return false;
+}
+// returns true when the failure was recorded; false when it belongs to a known finding this (generated) case tolerates
+static bool fail_attr(Result &r, const Ctx &x, const std::string &symptom, const std::string &msg) {
   std::string why;
   std::string key = attribute(x, symptom, why);
+  if (tolerated(x.c, key)) {
+    r.cls("excluded-known:" + key);
+    r.nontrivial = false;
+    return false;
+  }
   r.fail(key, msg + why);
+  return true;
 }
 
 // checks shared by SYMM families.
@@ -584,13 +602,13 @@ static void check_symm(Result &r, const json &c, const Mat &A, const Run &R, boo
           key = reducible ? K_HIDDEN : K_UNSEEN;
           why = " [diagnosis: the returned values are the lowest Ritz values of A on the span of all vectors the solver ever multiplied; "
                 "the missing eigenvector never became visible before all residuals passed]";
+        } else if (D.ok && D.same && D.restarted) {
+          key = reducible ? K_HIDDEN : K_UNSEEN;
+          why = " [diagnosis: restarts discarded part of the search space before all residuals passed; the returned pairs are converged "
+                "eigenpairs, the lower one was not represented in the final search space]";
         }
       }
-      bool tolerated = false;
-      if (c.contains("tolerate"))
-        for (auto &t : c["tolerate"])
-          if (t == key) tolerated = true;
-      if (tolerated)
+      if (tolerated(c, key))
         r.cls("excluded-known:" + key);
       else {
         r.fail(key, m + why);
@@ -746,6 +764,7 @@ static void apply_known(json &c, bool keep_structure) {
   json tol = json::array();
   if (known(K_HIDDEN)) tol.push_back(K_HIDDEN);
   if (known(K_UNSEEN)) tol.push_back(K_UNSEEN);
+  if (known(K_GS)) tol.push_back(K_GS);  // dependent corrections cannot be excluded by construction
   if (!tol.empty()) c["tolerate"] = tol;
 }
 
@@ -972,9 +991,19 @@ static void build_ham(const json &c, Mat &Ab, Mat &Bb) {
   std::vector<double> d = c.at("dA").get<std::vector<double>>();
   // scale the couplings so that A+B and A-B are strictly diagonally dominant with positive diagonal => SPD
   double dom = c.at("dom");
-  double worst = 0;
-  for (Index i = 0; i < m; ++i) worst = std::max(worst, (NA.row(i).cwiseAbs().sum() + NB.row(i).cwiseAbs().sum()) / d[size_t(i)]);
-  if (worst > 0) {
+  double worst = 0, worst_abs = 0;
+  for (Index i = 0; i < m; ++i) {
+    double rs = NA.row(i).cwiseAbs().sum() + NB.row(i).cwiseAbs().sum();
+    worst = std::max(worst, rs / d[size_t(i)]);
+    worst_abs = std::max(worst_abs, rs);
+  }
+  if (c.contains("offabs")) {  // strict class: absolute row sums (all d_i >= 4, so still strictly diagonally dominant)
+    double oa = c["offabs"];
+    if (worst_abs > 0) {
+      NA *= oa / worst_abs;
+      NB *= oa / worst_abs;
+    }
+  } else if (worst > 0) {
     NA *= dom / worst;
     NB *= dom / worst;
   }
@@ -991,12 +1020,14 @@ static json gen_ham() {
   c["m"] = m;
   c["neigen"] = k;
   std::vector<double> d(static_cast<size_t>(m));
-  double x = rfrac(4, 40, 8);
-  bool tight = rbool(30);
+  double x = rfrac(32, 320, 8);
+  bool strict = rbool(35);  // separated diagonal (gap >= 1) + couplings with row sums <= 0.05: "lowest" is unambiguous
+  bool tight = !strict && rbool(30);
   for (auto &v : d) {
     v = x;
-    x += tight ? rfrac(1, 8, 64) : rfrac(4, 16, 8);
+    x += strict ? 1.0 + rfrac(0, 16, 8) : tight ? rfrac(1, 8, 64) : rfrac(4, 16, 8);
   }
+  if (strict) c["offabs"] = pick<double>({0.05, 0.02});
   auto p = rperm(int(m));
   std::vector<double> dp(static_cast<size_t>(m));
   for (Index i = 0; i < m; ++i) dp[size_t(i)] = d[size_t(p[size_t(i)])];
@@ -1030,6 +1061,10 @@ static json gen_ham() {
       c["repaired"] = true;
     }
   }
+  json tl = json::array();
+  if (known(K_UNSEEN)) tl.push_back(K_UNSEEN);
+  if (known(K_GS)) tl.push_back(K_GS);
+  if (!tl.empty()) c["tolerate"] = tl;
   return c;
 }
 
@@ -1138,12 +1173,37 @@ static Result run_ham(const json &c) {
     double bound = std::sqrt(2.0 * double(k)) * std::sqrt(mmax) * (tol + slack) / smin + eig_abs;
     std::vector<double> got(R.lambda.data(), R.lambda.data() + k);
     std::sort(got.begin(), got.end());
-    for (Index i = 0; i < k; ++i) {
-      if (std::fabs(got[size_t(i)] - pos[size_t(i)]) > bound) {
-        fail_attr(r, X, "Davidson/ham-not-lowest-positive",
-                  fmt("HAM Success: %ld-th smallest returned value %.12g, %ld-th lowest positive eigenvalue %.12g (permitted deviation %.3e)",
-                      long(i), got[size_t(i)], long(i), pos[size_t(i)], bound) + cfg);
-        return r;
+    Index bad = -1;
+    for (Index i = 0; i < k; ++i)
+      if (!(got[size_t(i)] > 0) || std::fabs(got[size_t(i)] - pos[size_t(i)]) > bound) {
+        bad = i;
+        break;
+      }
+    if (bad >= 0) {
+      std::string m = fmt("HAM Success: %ld-th smallest returned value %.12g, %ld-th lowest positive eigenvalue %.12g (permitted deviation %.3e)",
+                          long(bad), got[size_t(bad)], long(bad), pos[size_t(bad)], bound) + cfg;
+      // are the returned values at least (distinct) positive eigenvalues?
+      bool all_eig = true;
+      size_t j = 0;
+      for (Index i = 0; i < k && all_eig; ++i) {
+        while (j < pos.size() && pos[j] < got[size_t(i)] - bound) ++j;
+        if (j < pos.size() && std::fabs(pos[j] - got[size_t(i)]) <= bound)
+          ++j;
+        else
+          all_eig = false;
+      }
+      if (c.contains("offabs") || !all_eig) {
+        // strict class (separated diagonal, couplings <= 0.05): the lowest positive roots are unambiguous
+        if (fail_attr(r, X, all_eig ? "Davidson/ham-not-lowest-positive" : "Davidson/ham-not-an-eigenvalue", m)) return r;
+      } else {
+        std::string why;
+        std::string key = attribute(X, K_UNSEEN, why);
+        if (tolerated(c, key)) {
+          r.cls(std::string("excluded-known:") + key);
+        } else {
+          r.fail(key, m + " [the returned values are converged positive eigenvalues of H, a lower one was never represented in the search space]" + why);
+          return r;
+        }
       }
     }
   } else {
